@@ -89,3 +89,41 @@ fn vx_fold<I: Iterator, B, F: FnMut(B, I::Item) -> B>(it: I, init: B, f: F) -> (
 pub assume_specification<T> [Option::<T>::unwrap_unchecked] (o: Option<T>) -> (r: T)
     requires o is Some,
     ensures r == o->0;
+
+// rustdoc core::iter::once: "Creates an iterator that yields an element exactly once."  A source: its item sequence is the
+// one element, whatever happens later; `Once::next` is `Option::take`, which terminates.  (Verbatim from prelude/list_more_std.rs.)
+#[verifier::external_body]
+fn vx_once<T>(x: T) -> (r: impl Iterator<Item = T>)
+    ensures
+        r.obeys_prophetic_iter_laws(),
+        r.decrease() is Some,
+        r.remaining() == seq![x],
+{ core::iter::once(x) }
+
+// rustdoc Iterator::chain: "Takes two iterators and creates a new iterator over both in sequence. chain() will return a new
+// iterator which will first iterate over values from the first iterator and then over values from the second iterator."
+// `Chain::next` pulls from `a` until `a` returns None, then from `b`, and returns None when `b` does.  In the prophetic model:
+// the items pulled from the chain are a prefix of a's items followed by b's items; if the chain is driven until it returns
+// None then both parts were (so their item sequences are complete) and the chain's items are all of them.
+// (Verbatim from prelude/list_more_std.rs.)
+#[verifier::external_body]
+fn vx_chain<A: Iterator, B: Iterator<Item = A::Item>>(a: A, b: B) -> (r: impl Iterator<Item = A::Item>)
+    ensures
+        r.obeys_prophetic_iter_laws() == (a.obeys_prophetic_iter_laws() && b.obeys_prophetic_iter_laws()),
+        r.decrease() is Some == (a.decrease() is Some && b.decrease() is Some),
+        r.obeys_prophetic_iter_laws() ==> r.remaining().len() <= a.remaining().len() + b.remaining().len(),
+        r.obeys_prophetic_iter_laws() ==> forall|k: int| 0 <= k < r.remaining().len() ==> #[trigger] r.remaining()[k] == (a.remaining() + b.remaining())[k],
+        r.obeys_prophetic_iter_laws() && r.will_return_none() ==> a.will_return_none() && b.will_return_none() && r.remaining() == a.remaining() + b.remaining(),
+{ a.chain(b) }
+
+// rustdoc core::iter::repeat_n: "Creates a new iterator that repeats a single element a given number of times. The repeat_n()
+// function repeats a single value exactly n times."  (`RepeatN` clones the element for all but the last item, which is the
+// element itself.)  A source: its item sequence does not depend on the future; `RepeatN::next` counts down.
+#[verifier::external_body]
+fn vx_repeat_n<T: Clone>(x: T, count: usize) -> (r: impl Iterator<Item = T>)
+    ensures
+        r.obeys_prophetic_iter_laws(),
+        r.decrease() is Some,
+        r.remaining().len() == count,
+        forall|i: int| 0 <= i < count ==> vstd::pervasive::cloned(x, #[trigger] r.remaining()[i]),
+{ core::iter::repeat_n(x, count) }
